@@ -24,6 +24,7 @@ members to typed unknowns true of the replaced part.
 import CtyModel.Props.C11
 import CtyModel.Lemmas.CoversWeaken
 import CtyModel.Lemmas.C12Funcs
+import CtyModel.Lemmas.d12bColl
 namespace CtyModel
 namespace C12
 open Fn Std
@@ -324,6 +325,111 @@ theorem known_in_known_out_hasindex (c k r : Value) (hc : c.whollyKnown = true) 
   · exact Or.inr h
   · left
     exact hasIndex_known_partial c k r hc hk htc htk h
+
+/-! ### per-function soundness (slice d12b): from `Impl` to `Call`, then function by function
+
+The part of the property that is each function's own doing.  `ImplSoundAt tf impl os ws` is the obligation on
+the callback; `impl_soundness_lifts_to_call` is the composition with the framework (for ALL specs); the
+`sound_<fn>` theorems discharge the obligation for the modelled callbacks (Stdlib/Collection.lean — the
+same definitions the C12/C13 correspondence diffs against the real functions on weakened arguments) and
+state the clause "the weakened call does not fail and its result admits the concrete result" about
+`Function.Call` itself (before the declared `refineNonNull`, which `call_refined_covers` adds). -/
+
+/-- the obligation on an `Impl` callback, relative to its `Type` callback, on one pair of argument lists -/
+def ImplSoundAt := D12b.ImplSoundAt
+/-- the weakened arguments pass the per-argument checks of `returnTypeForValues` -/
+def Passes := D12b.Passes
+/-- no weakened argument is an unknown its parameter refuses -/
+def ReachesImpl := D12b.ReachesImpl
+/-- the `Type` callback does not fail on the weakened arguments and its answer admits the concrete answer -/
+def TypeMonoAt := D12b.TypeMonoAt
+
+/-- **From `Impl` to `Call`, for all specs and callbacks** (clauses 1 and 2 of the property together).
+Concrete arguments known at the top, nothing marked, the weakened arguments admit the concrete ones and keep
+their types or take the placeholder.  If `Type` is monotone on this pair and `Impl` is sound on it — both
+only asked for when the weakened arguments get that far — the weakened `Call` SUCCEEDS and its result
+admits the concrete result.  `hrwf`, `hrefl`: the concrete result has a well-formed type and admits itself
+(true of every value cty builds: `covers_refl`). -/
+theorem impl_soundness_lifts_to_call (spec : Spec) (tf : TypeFn) (impl : ImplFn) (os ws : List Value) (r : Value)
+    (hm : Passes spec ws → TypeMonoAt tf os ws) (hTw : ∀ t, tf ws = .ok t → Ty.wf t = true)
+    (hko : ∀ a ∈ os, a.isKnown = true)
+    (hmo : ∀ a ∈ os, a.containsMarked = false) (hmw : ∀ a ∈ ws, a.containsMarked = false)
+    (hcov : coversAll ws os = true) (hty : TyKept ws os) (hrwf : Ty.wf r.ty = true) (hrefl : Covers r r = true)
+    (hi : Passes spec ws → ReachesImpl spec ws → ImplSoundAt tf impl os ws)
+    (hr : (callUnrefined spec tf impl os).1 = .ok r) :
+    ∃ r', (callUnrefined spec tf impl ws).1 = .ok r' ∧ Covers r' r = true :=
+  D12b.call_sound_of_impl spec tf impl os ws r hm hTw hko hmo hmw hcov hty hrwf hrefl hi hr
+
+/-- `Covers` is reflexive on values without a `.bad` payload node (a Go kind the type cannot have: C06) -/
+theorem covers_refl (r : Value) (h : D12b.okP r.v.stripMarks = true) : Covers r r = true := D12b.covers_refl r h
+
+/-- a weakening that is itself wholly known IS the value it weakens (same type, nothing marked, no set inside):
+what makes the `if !arg.IsWhollyKnown() { return cty.UnknownVal(retType) }` guards sound -/
+theorem wholly_known_weakening_is_identity {w o : Value} (hty : w.ty = o.ty) (hmw : w.containsMarked = false)
+    (hmo : o.containsMarked = false) (hk : w.whollyKnown = true) (hs : D12b.noSet w.v = true)
+    (hc : CoversX w o = true) : w = o := D12b.coversX_wk_eq hty hmw hmo hk hs hc
+
+theorem one_arg_cover {w o : Value} (hc : CoversX w o = true) : coversAll [w] [o] = true := by
+  simp [coversAll, hc]
+
+/-- **`length`** (`LengthFunc`: `Impl` is `Value.Length`; the parameter accepts unknown and dynamically
+typed arguments, so `Impl` sees every weakening).  The weakened call succeeds and answers the concrete
+length, or — for an unknown collection — the range of its length refinement, or — for a set holding
+unknowns — `[1, number of members]`: each admits the concrete length.  Side conditions are those of
+C01 `sound_length_partial` (`hwdyn`: a weakening of the placeholder type is unknown; `SetCountOK`: a weakened
+set all of whose members are known has as many members as the set it stands for). -/
+theorem sound_length (o w r : Value) (hk : o.whollyKnown = true) (hfo : o.wfc = true) (hfw : w.wfc = true)
+    (hmo : o.containsMarked = false) (hmw : w.containsMarked = false)
+    (hwdyn : w.ty = .dyn → w.isKnown = false) (hcount : SetCountOK w.unmark o.unmark = true)
+    (hty : w.ty = o.ty ∨ w.ty.isDyn = true) (hc : CoversX w o = true) (hrefl : Covers r r = true)
+    (hr : (callUnrefined Stdlib.lengthSpec Stdlib.lengthType Stdlib.lengthImpl [o]).1 = .ok r) :
+    ∃ r', (callUnrefined Stdlib.lengthSpec Stdlib.lengthType Stdlib.lengthImpl [w]).1 = .ok r' ∧ Covers r' r = true := by
+  have hrwf : Ty.wf r.ty = true := by
+    rcases known_args_impl_value _ _ _ [o] r (by simpa using hk) (by simpa using hmo) hr with h | ⟨rt, _, h⟩
+    · rw [h]; rfl
+    · simp only [Stdlib.lengthImpl] at h
+      rw [D12b.length_ty h]; rfl
+  exact impl_soundness_lifts_to_call _ _ _ [o] [w] r (fun _ => D12b.lengthType_mono hty)
+    (fun t ht => by rw [D12b.lengthType_number ht]; rfl)
+    (by simpa using C12L.whollyKnown_isKnown hk) (by simpa using hmo) (by simpa using hmw)
+    (one_arg_cover hc) ⟨hty, trivial⟩ hrwf hrefl
+    (fun _ _ => D12b.length_implSound o w hk hfo hfw hwdyn hcount hc) hr
+
+/-- **`compact`** (guard `if !listVal.IsWhollyKnown() { return cty.UnknownVal(retType) }`): a list with an
+unknown element is answered by the unknown list of strings; a wholly known weakening is the list itself. -/
+theorem sound_compact (E : Stdlib.Env) (o w r : Value) (hk : o.whollyKnown = true)
+    (hmo : o.containsMarked = false) (hmw : w.containsMarked = false) (hs : D12b.noSet w.v = true)
+    (hty : w.ty = o.ty ∨ w.ty.isDyn = true) (hc : CoversX w o = true)
+    (hrwf : Ty.wf r.ty = true) (hrefl : Covers r r = true)
+    (hr : (callUnrefined Stdlib.compactSpec Stdlib.compactType (Stdlib.compactImpl E) [o]).1 = .ok r) :
+    ∃ r', (callUnrefined Stdlib.compactSpec Stdlib.compactType (Stdlib.compactImpl E) [w]).1 = .ok r' ∧
+      Covers r' r = true :=
+  impl_soundness_lifts_to_call _ _ _ [o] [w] r (fun _ => D12b.typeMonoAt_of_eq rfl)
+    (fun t ht => by cases ht; rfl)
+    (by simpa using C12L.whollyKnown_isKnown hk) (by simpa using hmo) (by simpa using hmw)
+    (one_arg_cover hc) ⟨hty, trivial⟩ hrwf hrefl
+    (fun hp _ => D12b.compact_implSound E o w (D12b.ty_kept_of_passes_nodyn (spec := Stdlib.compactSpec) rfl hp hty) hmw hmo hs hc) hr
+
+/-- **`distinct`** (same guard) -/
+theorem sound_distinct (E : Stdlib.Env) (o w r : Value) (hk : o.whollyKnown = true) (hwf : Ty.wf o.ty = true)
+    (hmo : o.containsMarked = false) (hmw : w.containsMarked = false) (hs : D12b.noSet w.v = true)
+    (hty : w.ty = o.ty ∨ w.ty.isDyn = true) (hc : CoversX w o = true)
+    (hrwf : Ty.wf r.ty = true) (hrefl : Covers r r = true)
+    (hr : (callUnrefined Stdlib.distinctSpec Stdlib.distinctType (Stdlib.distinctImpl E) [o]).1 = .ok r) :
+    ∃ r', (callUnrefined Stdlib.distinctSpec Stdlib.distinctType (Stdlib.distinctImpl E) [w]).1 = .ok r' ∧
+      Covers r' r = true :=
+  impl_soundness_lifts_to_call _ _ _ [o] [w] r
+    (fun hp => D12b.typeMonoAt_of_eq (by
+      simp [Stdlib.distinctType, D12b.ty_kept_of_passes_nodyn (spec := Stdlib.distinctSpec) rfl hp hty]))
+    (fun t ht => by
+      simp only [Stdlib.distinctType] at ht
+      cases ht
+      rcases hty with h | h
+      · rw [h]; exact hwf
+      · cases hw : w.ty <;> simp_all [Ty.isDyn, Ty.wf])
+    (by simpa using C12L.whollyKnown_isKnown hk) (by simpa using hmo) (by simpa using hmw)
+    (one_arg_cover hc) ⟨hty, trivial⟩ hrwf hrefl
+    (fun hp _ => D12b.distinct_implSound E o w (D12b.ty_kept_of_passes_nodyn (spec := Stdlib.distinctSpec) rfl hp hty) hmw hmo hs hc) hr
 
 /-! ### the hypotheses are satisfiable -/
 
